@@ -246,6 +246,12 @@ func (c *Ctx) SrcFuncs(rel string) []*ssa.Function {
 	for _, m := range sp.Members {
 		switch m := m.(type) {
 		case *ssa.Function:
+			if m.Synthetic != "" {
+				// package initializer: its closures (pool constructors, ...) are source functions
+				for _, a := range m.AnonFuncs {
+					add(a)
+				}
+			}
 			add(m)
 		case *ssa.Type:
 			for _, typ := range []types.Type{m.Type(), types.NewPointer(m.Type())} {
